@@ -2,6 +2,7 @@ import Unsized.CodecLemmasRound
 import Unsized.CodecLemmasInit
 import Unsized.CodecLemmasValid
 import Unsized.CodecLemmasView
+import Unsized.CodecLemmasFits
 /-!
 # Top-level corollaries about `decode`, `viewTop`, the client helpers and the test buffer;
 and a model of the PRE-FIX `UnsizedList` iterator used as a non-vacuity witness for `E.ub`.
